@@ -502,7 +502,9 @@ def pred_C06(model, params, run):
         if "working" in it:
             st = it["working"]
             for t, tk in enumerate(model["tasks"]):
-                if st["tstate"][t] == READY and tk["isAuto"] and tk["comp"] is None:
+                # the property speaks of working steps: at a project absence step nothing starts
+                # (flag-on absence steps are C10's business)
+                if st["time"] not in absn and st["tstate"][t] == READY and tk["isAuto"] and tk["comp"] is None:
                     out.append(viol("C06", "automatic task %d waits in READY" % t, time=st["time"]))
                     return out
             if st["time"] not in absn and "allocated" in it:
